@@ -254,8 +254,14 @@ class LayoutExtractor(object):
                 if self.detect_lines:
                     if not self.detect_regions:
                         regions = page_layout.regions
+                    line_counts = [len(region.lines) for region in regions]
                     regions = helpers.assign_lines_to_regions(
                         b_list, h_list, t_list, regions)
+                    if rot > 0 and not self.detect_regions:
+                        # the same regions are filled in every orientation pass: keep the line ids distinct
+                        for region, line_count in zip(regions, line_counts):
+                            for line in region.lines[line_count:]:
+                                line.id = '{}_{}'.format(line.id, rot)
                 if self.detect_regions:
                     page_layout.regions += regions
 
